@@ -80,7 +80,21 @@ def gen_blocks(rng, n, unit):
         pos = end
         if rng.random() < 0.5:
             pos += unit * rng.randrange(1, 3)
+    # labels: zero-size spans, inside blocks, at block edges and standing alone in gaps
+    # (a label never lies strictly inside an item, so: item boundaries, or unit-aligned positions outside all items)
+    data = list(spans)
+    edges = [o for o, s in data] + [o + s for o, s in data]
+    for _ in range(rng.choice([0, 0, 1, 2, 4])):
+        if edges and rng.random() < 0.5:
+            spans.append((rng.choice(edges), 0))
+        else:
+            o = unit * rng.randrange(0, max(1, n // unit + 3))
+            if not any(a <= o < a + z for a, z in data):
+                spans.append((o, 0))
     rng.shuffle(spans)
+    # a label recorded *after* data at the same offset (only possible with a backward #addr) splits the block at a
+    # boundary that need not be unit-aligned (the F19 family); keep labels first so they never split a block
+    spans.sort(key=lambda s: 0 if s[1] == 0 else 1)
     if rng.random() < 0.3:
         spans.append(("n", rng.randrange(0, 9)))    # reservation without offset
     return spans
